@@ -485,6 +485,14 @@ func c13Levels(tier string) []core.Level {
 				emit(core.Case{Fam: "twigcp", N: []int{b, e, b % 2}})
 			}
 		}
+		// ... and on values of 9 Go types other than string that carry a boundary character in their text
+		for e := range escapers {
+			for b := range c13Boundary {
+				for k := 1; k < len(c12Carriers); k++ {
+					emit(core.Case{Fam: "carriers", N: []int{e, b, k}})
+				}
+			}
+		}
 	}})
 	lv = append(lv, core.Level{Name: "re-escaping: every escaper on every escaper's output of every boundary character, alone and embedded in text (a 'do not double-encode' shortcut is lossy)", Gen: func(emit func(core.Case)) {
 		for _, e2 := range escapers {
@@ -651,6 +659,31 @@ func c13Run(c core.Case) core.Result {
 			}
 		}
 		return core.Okay(true, "ok")
+	case "carriers":
+		// the escape filter on values that carry their text through a Go type other than string (named integer, bool and
+		// float kinds, a struct, a pointer - all with a String method): what the escaper makes of that text
+		e := escapers[c.N[0]]
+		c12Carried = "a" + c13Boundary[c.N[1]] + "1<"
+		want, _ := safeEscape(e.fn, c12Carried)
+		v := c12Carriers[c.N[2]]()
+		for _, src := range []string{"{{ v|escape('" + e.name + "')|raw }}", "{{ v|e('" + e.name + "')|raw }}", "{% for w in [v] %}{{ w|escape('" + e.name + "')|raw }}{% endfor %}"} {
+			if strings.Contains(src, "|e(") {
+				continue // (this library has no alias e)
+			}
+			out, err, pan := tryExec(twig.New(nil), src, map[string]stick.Value{"v": v})
+			if err != nil || pan != "" || out != want {
+				return core.Violation("filter-differs", fmt.Sprintf("%s with v = %T whose text is %q renders %q (%v %s), the escaper gives %q", src, v, c12Carried, out, err, pan, want))
+			}
+		}
+		if e.name == "html" {
+			for _, src := range []string{"{{ v }}", "{{ v|escape }}", "{{ v|escape|escape }}"} {
+				out, err, pan := tryExec(twig.New(nil), src, map[string]stick.Value{"v": v})
+				if err != nil || pan != "" || out != want {
+					return core.Violation("filter-differs", fmt.Sprintf("%s (an inline template: html) with v = %T whose text is %q renders %q (%v %s), the escaper gives %q", src, v, c12Carried, out, err, pan, want))
+				}
+			}
+		}
+		return core.Okay(true, want)
 	case "twigcp":
 		// the escape filter of a twig environment on values that consist of one character only, once, twice and after
 		// a letter - for 256 consecutive code points per execution: each result is the escaper's own
